@@ -58,6 +58,10 @@ def sym(symbol, i, fname):
     if symbol == "suffix":
         nm = fname.replace("r#", "") + "_"
         return dict(pat=nm, ty="i64", arg=str(v), show=[nm], exp=[str(v)], name=nm, kind="plain")
+    if symbol == "rawsuffix":
+        # the raw spelling of the name the macro picks when a parameter is named like the function (`r#f_`): taken, to rustc
+        nm = "r#" + fname.replace("r#", "") + "_"
+        return dict(pat=nm, ty="i64", arg=str(v), show=[nm], exp=[str(v)], name=nm, kind="plain")
     if symbol == "rawfn":
         # the function's own name in the OTHER spelling (`r#f` for `f`, `g` for `r#g`): the same identifier to rustc
         nm = fname[2:] if fname.startswith("r#") else "r#" + fname
@@ -72,14 +76,14 @@ def sym(symbol, i, fname):
     raise KeyError(symbol)
 
 
-SYMS = ["id", "mut", "ref", "raw", "wild", "tup", "ts1", "ts2", "st", "refpat", "fnname", "gnext", "gprev", "suffix", "tsfn", "rawfn", "rawgen", "tsu"]
+SYMS = ["id", "mut", "ref", "raw", "wild", "tup", "ts1", "ts2", "st", "refpat", "fnname", "gnext", "gprev", "suffix", "tsfn", "rawfn", "rawgen", "tsu", "rawsuffix"]
 FNAMES = ["f", "r#type", "r#g", "arg1"]   # plain, raw keyword, raw non-keyword, spelled like a generated parameter name
 
 
 def unraw(n):
     return n[2:] if n and n.startswith("r#") else n
 CONTEXTS = ["gen", "nodeps", "mod", "impl", "trait", "traitreq", "stamped", "targetprov"]   # stamped: like gen, but written in a macro_rules body with the trait name as macro argument; targetprov: like impl, but the delegated trait PROVIDES the method with the same patterns
-REQ_OK = {"id", "raw", "wild", "fnname", "gnext", "gprev", "suffix"}   # what a method WITHOUT a body may declare: identifiers and `_`
+REQ_OK = {"id", "raw", "wild", "fnname", "gnext", "gprev", "suffix", "rawsuffix"}   # what a method WITHOUT a body may declare: identifiers and `_`
 
 
 def valid(word, fname):
